@@ -529,6 +529,7 @@ def mutate(rng, b: bytes) -> bytes:
     return bytes(ba)
 
 
+_SWEPT = {}
 SWEEP_BYTES = (0x00, 0x01, 0x7F, 0x80, 0xFC, 0xFD, 0xFE, 0xFF)
 
 
@@ -557,15 +558,19 @@ def payload_cases(ctx, e, n_gen, n_fuzz):
         # systematic per-byte boundary sweep over valid payloads: one position at a time set to each boundary byte
         # (catches leaf codecs that lose the top / bottom raws of an integer-backed field wherever it sits)
         bases = []
-        for b in sorted(set(produced), key=lambda x: (-len(x), x)):
+        swept = _SWEPT.setdefault(id(ctx), set())
+        sweep_key = (id(ser), tuple(sorted(ctxvars.items())))
+        do_sweep = ctx.thorough or sweep_key not in swept     # quick: once per distinct serializer object and context
+        swept.add(sweep_key)
+        for b in (sorted(set(produced), key=lambda x: (-len(x), x)) if do_sweep else ()):
             if not any(len(b) == len(o) for o in bases):
                 bases.append(b)                      # one base per distinct length, longest first
             if len(bases) >= ctx.pick(2, 4):
                 break
         for base in bases:
             n = len(base)
-            limit = ctx.pick(96, 100000)
-            if n <= limit:
+            limit = ctx.pick(64, 100000)
+            if n <= max(limit, 90):
                 positions = range(n)
             else:
                 stride = -(-n // limit)
@@ -608,12 +613,14 @@ def corr_bytes(ctx, reg):
                           "TEMPLATES plus an absent one; every subset of the switch flags): values generated from the "
                           "sub-template's own spec tree and serialized (= payloads the serializer can itself produce: must be "
                           "accepted and survive decode-encode byte-for-byte), a per-byte boundary sweep of those (every position - a strided subset of long payloads in the "
-                          "quick tier - set to each of 00 01 7F 80 FC FD FE FF, one at a time), random mutations, and raw random / "
+                          "quick tier - set to each of 00 01 7F 80 FC FD FE FF, one at a time; in the quick tier once per distinct serializer object when "
+                          "it is registered under several keys), random mutations, and raw random / "
                           "zero byte strings (if accepted: one decode-encode pass must reach a fixed point that decodes to the same "
                           "value); each in object and plain-data form; plain-data values must consist of literals only and, "
                           "when they hold no inf/nan, repr() must evaluate back (ast.literal_eval) to an equal value that "
                           "serializes to the same bytes; no model involved; non-trivial = accepted payloads")
     n_gen, n_fuzz = ctx.pick(14, 300), ctx.pick(24, 500)
+    _SWEPT.pop(id(ctx), None)
     counts, dist = {}, {}
     accepted = evals = 0
     samples = []
